@@ -665,8 +665,10 @@ class KeychainSqlite3(Keychain):
         key_locator_name = sign_args.get('key_locator', None)
         if not key_locator_name:
             key_locator_name = cert_name
-        # The same key locator may be requested for different keys
-        cache_key = (Name.to_bytes(key_name), Name.to_bytes(key_locator_name))
+        # The same key locator may be requested for different keys.
+        # The signer keeps its own copy of the key locator: the caller may go on editing the name it passed in
+        key_locator_name = bytes(Name.to_bytes(key_locator_name))
+        cache_key = (Name.to_bytes(key_name), key_locator_name)
         signer = self._signer_cache.get(cache_key, None)
         if not signer:
             signer = self.tpm.get_signer(key_name, key_locator_name)
